@@ -191,7 +191,7 @@ func optimizerInlineGuard(c *Ctx, g *load.G) (bool, string) {
 		}
 		need := []string{"ok(" + x + ".(*RuleRefExpr))", "ok(" + recv + ".rules[" + name + "])", "!ok(" + recv + ".ruleUsesRules[" + name + "])"}
 		for _, nd := range need {
-			if !before.holds(nd) {
+			if !before.holds(minParens(nd)) {
 				bad = append(bad, "a reference is inlined without `"+nd+"` (facts: "+abbreviate(strings.Join(before.facts(), " "))+")")
 			}
 		}
